@@ -44,6 +44,7 @@ class Runner:
         self.cases = []     # dict(id, stmts, src, job extras)
         self.rels = []      # relation events, appended after the cases they mention
         self.results = {}
+        self.preamble = []   # events put at the start of every trace group (e.g. C10's reference results)
         self._next = 1
 
     def add(self, stmts, src=None, **job):
@@ -96,7 +97,7 @@ class Runner:
             relsof.setdefault(find(r["a"]), []).append(r)
         out = []
         for g in order:
-            evs = []
+            evs = list(self.preamble)
             for c in groups[g]:
                 evs += self.case_events(c)
             evs += relsof.get(g, [])
@@ -116,7 +117,8 @@ class Runner:
         end.pop("sym", None)
         for k, dv in (("sha", ""), ("outlen", -1), ("nstmt", -1), ("loc", 0), ("fmt", ""), ("status", "ok")):
             end.setdefault(k, dv)
-        begin = {"e": "begin", "id": c["id"], "stmts": [render.norm_stmt(s) for s in c["stmts"]]}
+        nt = bool(c["job"].get("notrace"))
+        begin = {"e": "begin", "id": c["id"], "nt": nt, "stmts": [] if nt else [render.norm_stmt(s) for s in c["stmts"]]}
         return [begin] + evs[:-1] + [end]
 
 
